@@ -95,6 +95,28 @@ def search():
         return f"f(a0=Union[int, float]): the float member matches no overload but the call is not diagnosed (revealed {revealed.get(8)!r})"
     if revealed.get(6) in ("int", "str", "bytes"):
         return f"f(Any) selected a single overload's type {revealed.get(6)!r} although three overloads match"
+    # two arguments: an earlier overload that takes part of a union but rejects another argument is not a match at all;
+    # a union with an Any member never selects specific overloads when several match
+    name = "verif_c08_lib_v"
+    _install_module(name, _lib([(("int", "int"), "int"), (("str", "bytes"), "str")]) + _lib([(("int",), "int"), (("str",), "str")]).replace("def f(", "def g(").replace("from typing import overload, Any, Union\n", ""))
+    try:
+        code = (f"from {name} import f, g\nfrom typing import Any, Union\n"
+                "def use(u: Union[int, str], b: bytes, i: int, ua: Union[Any, int, str], ub: Union[int, Any, str]) -> None:\n"
+                "    reveal_type(f(u, b))\n    reveal_type(f(i, i))\n    reveal_type(f('s', b))\n    reveal_type(g(ua))\n    reveal_type(g(ub))\n    reveal_type(f(u, i))\n")
+        res = check_code(code)
+    finally:
+        sys.modules.pop(name, None)
+    revealed = {fl["lineno"]: re.search(r"'(.*)'", fl["description"]).group(1) for fl in res if fl["code"].name == "reveal_type"}
+    diagnosed = {fl["lineno"] for fl in res if fl["code"].name in ("incompatible_call", "incompatible_argument")}
+    if 4 not in diagnosed:
+        return f"f(Union[int, str], bytes) over (int, int) -> int, (str, bytes) -> str: the int member matches no overload (bytes is not int) but the call is accepted as {revealed.get(4)!r}"
+    if 5 in diagnosed or revealed.get(5) != "int" or 6 in diagnosed or revealed.get(6) != "str":
+        return f"f(int, int) / f('s', bytes): revealed {revealed.get(5)!r} / {revealed.get(6)!r}, diagnosed {sorted(diagnosed)}"
+    for ln, what in ((7, "Union[Any, int, str]"), (8, "Union[int, Any, str]")):
+        if set(revealed.get(ln, "").replace(" ", "").split("|")) <= {"int", "str"}:
+            return f"g({what}) over int -> int, str -> str selected specific overload types {revealed.get(ln)!r} although the Any member matches several overloads"
+    if 9 not in diagnosed:
+        return f"f(Union[int, str], int): the str member matches no overload but the call is accepted as {revealed.get(9)!r}"
     return None
 
 
